@@ -9,6 +9,7 @@ an independent stdlib TLS server thread that sends one record and then drops the
 from __future__ import annotations
 
 import asyncio
+import os
 import socket
 import ssl
 import threading
@@ -26,6 +27,11 @@ class _Patch:
     def __enter__(self):
         self.orig = ssl.create_default_context
         self.made: list[tuple[ssl.SSLContext, int]] = []
+        # (load_default_certs() of the original reads the system CA bundle, 30 ms per call: point OpenSSL's default verify paths
+        #  at the test CA while the constructor runs)
+        self.env = {k: os.environ.get(k) for k in ("SSL_CERT_FILE", "SSL_CERT_DIR")}
+        os.environ["SSL_CERT_FILE"] = e9.CERT
+        os.environ["SSL_CERT_DIR"] = "/nonexistent"
 
         def create_default_context(*a, **kw):
             ctx = self.orig(*a, **kw)
@@ -42,6 +48,11 @@ class _Patch:
 
     def __exit__(self, *a):
         ssl.create_default_context = self.orig  # type: ignore[assignment]
+        for k, v in self.env.items():
+            if v is None:
+                os.environ.pop(k, None)
+            else:
+                os.environ[k] = v
 
 
 def _ssl_in_chain(e: BaseException | None) -> bool:
@@ -55,8 +66,9 @@ def _ssl_in_chain(e: BaseException | None) -> bool:
     return False
 
 
-def _server(tls: str, notify: bool):
-    """loopback listener + feeder thread started on accept; returns (port, box) — box['fd'] is the Feeder once connected"""
+def _server(tls: str, notify: bool, cut: int | None = None):
+    """loopback listener + feeder thread started on accept; returns (port, box) — box['fd'] is the Feeder once connected; the
+    feeder forwards at most `cut` bytes of the server's stream, then shuts its write side down"""
     lst = socket.socket(socket.AF_INET, socket.SOCK_STREAM)
     lst.bind(("127.0.0.1", 0))
     lst.listen(1)
@@ -74,7 +86,7 @@ def _server(tls: str, notify: bool):
             return
         finally:
             lst.close()
-        fd = s9.Feeder(conn, peer, None, 1, shut_after_script=True)
+        fd = s9.Feeder(conn, peer, cut, 1, shut_after_script=True)
         box["fd"] = fd
         fd.run()
 
@@ -92,18 +104,19 @@ def _protocol():
 
 def run_client(case: dict) -> tuple[list[str], dict[str, Any]]:
     which = case["which"]
-    sc = bool(case.get("sc", True))
+    # "sc": null = the parameter is OMITTED (the documented default is the standard-compatible mode)
+    sc_kw = {} if case.get("sc", True) is None else {"ssl_standard_compatible": bool(case.get("sc", True))}
     tls = case.get("tls", "1.3")
     notify = bool(case.get("notify", False))
     lines: list[str] = []
-    port, box = _server(tls, notify)
+    port, box = _server(tls, notify, case.get("cut"))
     with _Patch() as patch:
         try:
             if which == "tcp":
                 from easynetwork.clients.tcp import TCPNetworkClient
                 try:
                     client = TCPNetworkClient(("127.0.0.1", port), _protocol(), ssl=True, server_hostname="localhost",
-                                              ssl_standard_compatible=sc, connect_timeout=LIMIT, ssl_handshake_timeout=LIMIT)
+                                              connect_timeout=LIMIT, ssl_handshake_timeout=LIMIT, **sc_kw)
                 except TimeoutError:
                     return ["infra-timeout client connect"], {}
                 except Exception as e:  # noqa: BLE001
@@ -128,7 +141,7 @@ def run_client(case: dict) -> tuple[list[str], dict[str, Any]]:
 
                 async def main():
                     client = AsyncTCPNetworkClient(("127.0.0.1", port), _protocol(), ssl=True, server_hostname="localhost",
-                                                   ssl_standard_compatible=sc)
+                                                   **sc_kw)
                     try:
                         try:
                             await asyncio.wait_for(client.wait_connected(), LIMIT)
@@ -172,13 +185,26 @@ def payload_line() -> bytes:
 
 
 def oracle(case: dict, real: list[str]) -> str | None:
-    sc = bool(case.get("sc", True))
-    where = f"client {case['which']} ssl=True sc={sc}"
+    """ssl=True: the context the constructor built has OP_IGNORE_UNEXPECTED_EOF cleared WHATEVER the mode (what the unchanged
+    constructors do: `options &= ~OP_IGNORE_UNEXPECTED_EOF`, unconditionally; with the bit left set OpenSSL itself turns a
+    truncation into a clean shutdown and the mode is no longer the library's decision), and the BEHAVIOUR: the server's stream
+    ended without a complete close_notify (dropped after the record, cut inside the close_notify, no close_notify at all) =>
+    mode omitted / True: recv_packet() raises with the TLS error on its chain; False: the same report as a clean close."""
+    sc = case.get("sc", True) is None or bool(case.get("sc", True))
+    where = (f"client {case['which']} ssl=True sc={'omitted' if case.get('sc', True) is None else bool(case.get('sc', True))}"
+             + (f" server stream cut at {case['cut']}" if case.get("cut") is not None else ""))
     f = {ln.split()[0]: ln.split(None, 1)[1] for ln in real if " " in ln}
     if f.get("ctx-created") != "1":
         return f"{where}: expected exactly one create_default_context() call, saw {f.get('ctx-created')}"
+    why = _behaviour(case, real, where, sc, f)
+    if why:
+        return why
     if OPT and f.get("bit-after") != "0":
         return f"{where}: the default context still has OP_IGNORE_UNEXPECTED_EOF set after the constructor"
+    return None
+
+
+def _behaviour(case: dict, real: list[str], where: str, sc: bool, f: dict) -> str | None:
     if f.get("hs") != "ok":
         return f"{where}: connection / handshake failed ({f.get('hs')})"
     recv = [ln for ln in real if ln.startswith("recv ")]
@@ -187,7 +213,10 @@ def oracle(case: dict, real: list[str]) -> str | None:
     # happen is that a truncation is indistinguishable from the peer's clean close: the TLS error stays on the chain
     if not last.startswith("recv exc:"):
         return f"{where}: the connection ended but recv_packet() reports {last!r}"
-    if case.get("notify"):
+    complete = bool(case.get("notify"))
+    if complete and case.get("cut") is not None:
+        complete = case["cut"] >= e9.baseline("client", case.get("tls", "1.3"), [6], True)["cn_end"]
+    if complete:
         if last.endswith(":ssl"):
             return f"{where}: the peer closed with close_notify but recv_packet() reports a TLS error ({last})"
         return None
@@ -217,11 +246,16 @@ def real_for_diff(case: dict, real: list[str]) -> list[str]:
 
 
 def cases(tier: str) -> list[dict]:
+    """both client classes x ssl_standard_compatible omitted (null) / True / False x the server's stream: no close_notify at
+    all, dropped right before / cut inside / one byte before the end of its close_notify, complete"""
     out = []
     for which in ("tcp", "async_tcp"):
-        for sc in (True, False):
+        for sc in (None, True, False):
             for tls in (("1.3",) if tier == "quick" else ("1.3", "1.2")):
                 out.append({"kind": "client", "which": which, "sc": sc, "tls": tls})
-                if sc:
-                    out.append({"kind": "client", "which": which, "sc": sc, "tls": tls, "notify": True})
+                out.append({"kind": "client", "which": which, "sc": sc, "tls": tls, "notify": True})
+                m = e9.baseline("client", tls, [6], True)
+                cuts = (m["cn_start"], m["cn_start"] + 3, m["cn_end"] - 1) if tier != "quick" or sc is not False else (m["cn_start"] + 3,)
+                for cut in cuts:
+                    out.append({"kind": "client", "which": which, "sc": sc, "tls": tls, "notify": True, "cut": cut})
     return out
